@@ -130,6 +130,21 @@ func source(r *rand.Rand, t *model.Node, rep string) (interface{}, string, error
 			return nil, rep, err
 		}
 		return c, rep, nil
+	case "config-mixed":
+		// a *Config source that carries a dictionary part AND a list part
+		// (built by merging a list over a dictionary)
+		c := ucfg.New()
+		if len(t.D) > 0 {
+			if err := c.Merge((&model.Node{Kind: model.KSub, D: t.D}).ToGo()); err != nil {
+				return nil, rep, err
+			}
+		}
+		if len(t.A) > 0 {
+			if err := c.Merge((&model.Node{Kind: model.KSub, A: t.A, HasA: true}).ToGo()); err != nil {
+				return nil, rep, err
+			}
+		}
+		return c, rep, nil
 	case "child":
 		w, err := ucfg.NewFrom(map[string]interface{}{"w": t.ToGo()})
 		if err != nil {
@@ -215,6 +230,20 @@ func (check) Run(seed int64, tier string, idx int, verbose bool) harness.Result 
 	ops := make([]operand, len(chain))
 	for i, t := range chain {
 		ops[i] = operand{t, reps[r.Intn(len(reps))]}
+		if r.Intn(8) == 0 {
+			// give the operand both parts: its own plus the missing one from a small tree
+			extra := gen.Top(r, o, 2)
+			mixed := t.Copy()
+			if len(mixed.A) == 0 && len(extra.A) > 0 {
+				mixed.A, mixed.HasA = extra.Copy().A, true
+			} else if len(mixed.D) == 0 && len(extra.D) > 0 {
+				mixed.D = extra.Copy().D
+			}
+			if len(mixed.D) > 0 && len(mixed.A) > 0 {
+				chain[i] = mixed
+				ops[i] = operand{mixed, "config-mixed"}
+			}
+		}
 	}
 	runChain(res, r, pol.p, pol.opts, ops, verbose)
 	if idx < 2 {
@@ -309,6 +338,9 @@ func runChain(res *harness.R, r *rand.Rand, p model.Policy, opts []ucfg.Option, 
 // laws asserts the derived, model-independent laws of the statement.
 func laws(res *harness.R, p model.Policy, opts []ucfg.Option, ops []operand, desc func() string) {
 	x := ops[0].tree
+	if len(x.D) > 0 && len(x.A) > 0 {
+		return // the laws are stated on plain Go data, which cannot express a node with both parts
+	}
 	panicked, pv, where := harness.Safe(func() {
 		base, err := ucfg.NewFrom(x.ToGo())
 		if err != nil {
@@ -363,7 +395,7 @@ func laws(res *harness.R, p model.Policy, opts []ucfg.Option, ops []operand, des
 		// append / prepend: length is the sum, both orders preserved
 		if (p == model.PAppend || p == model.PPrepend) && len(ops) > 1 {
 			a, b := ops[0].tree, ops[1].tree
-			if len(a.A) > 0 && len(b.A) > 0 {
+			if len(a.A) > 0 && len(b.A) > 0 && len(a.D) == 0 && len(b.D) == 0 {
 				c5, _ := ucfg.NewFrom(a.ToGo())
 				if err := c5.Merge(b.ToGo(), opts...); err != nil {
 					res.Violate("law-append", "append/prepend merge failed: %v", err)
